@@ -408,7 +408,10 @@ def _gen_plan(family, rng, tier):
             cached.add(v)
     seps = [streamsim.gen_separator(rng)[1].hex() if rng.random() < 0.5 else '' for _ in range(len(items) + 1)]
     knobs = {'coe': coe, 'compiled': rng.choice([1, 2, 8, 8]) if family == 'c08-def' else None,
-             'filecheck': family != 'c08-def' and rng.random() < 0.25, 'sub': sub + ('-fixed' if fixed_layout else '')}
+             'filecheck': family != 'c08-def' and rng.random() < 0.25, 'sub': sub + ('-fixed' if fixed_layout else ''),
+             # a filter expression that accepts every message changes nothing (the scanner then reads each
+             # header first and decodes the message a second time)
+             'filter': rng.choice([None] * 7 + ['True', '${%length} > 0', '${%n_subsets} >= 0 and ${%edition} > 1'])}
     return {'knobs': knobs, 'items': items, 'seps': seps}
 
 
@@ -465,7 +468,7 @@ def _scan(arg):
     dec = Decoder(compiled_template_cache_max=arg.get('compiled'))
     out = {'deliveries': [], 'exc': None}
     try:
-        for m in generate_bufr_message(dec, stream, continue_on_error=arg['coe']):
+        for m in generate_bufr_message(dec, stream, continue_on_error=arg['coe'], filter_expr=arg.get('filter')):
             out['deliveries'].append(_observe(m))
     except Exception as e:
         out['exc'] = exc_info(e)
@@ -522,7 +525,8 @@ def execute(plan):
                     continue
                 root = make_tables_root(os.path.join(tmp, 'r%d' % i), it['version'], it['extra_b'], it['extra_d'])
                 tr['file'][str(i)] = core.run_in_child(_file_decode, {'root': root, 'hex': it['hex']}, 60)
-        arg = {'stream': lay['stream'].hex(), 'coe': kn['coe'], 'compiled': kn.get('compiled')}
+        arg = {'stream': lay['stream'].hex(), 'coe': kn['coe'], 'compiled': kn.get('compiled'),
+               'filter': kn.get('filter')}
         if plan['family'] == 'c08-def':
             tr['ref'] = core.run_in_child(_scan, dict(arg, compiled=None), 120)
         tr.update(_scan(arg))
@@ -647,7 +651,8 @@ def shape(plan, tr=None):
                  bool(it.get('uses_ncep')), bool(it.get('after_cached')), bool(it.get('uses_redefined')),
                  bool(it.get('reused_template')))
                 for it in plan['items'])
-    return (plan['family'], kn.get('sub'), per, kn.get('coe'), kn.get('compiled'), kn.get('filecheck'))
+    return (plan['family'], kn.get('sub'), per, kn.get('coe'), kn.get('compiled'), kn.get('filecheck'),
+            bool(kn.get('filter')))
 
 
 def nontrivial(plan, tr):
@@ -685,6 +690,10 @@ def shrink_candidates(plan):
     if kn.get('filecheck'):
         p = _copy(plan)
         p['knobs']['filecheck'] = False
+        yield p
+    if kn.get('filter'):
+        p = _copy(plan)
+        p['knobs']['filter'] = None
         yield p
     if kn.get('coe') and not any(it['kind'] == 'bad' for it in plan['items']):
         p = _copy(plan)
